@@ -567,7 +567,10 @@ func c09One(c *core.Ctx, paths []identPath, sig, cr int, r *core.Rand, class str
 		}
 		direct := p.name == "destination.ReadDestination" || p.name == "destination.NewDestinationFromBytes" ||
 			p.name == "router_identity.ReadRouterIdentity" || p.name == "router_identity.NewRouterIdentityFromBytes" ||
-			p.name == "destination.NewDestination(ReadKeysAndCert)" || p.name == "router_identity.NewRouterIdentityFromKeysAndCert(ReadKeysAndCert)"
+			p.name == "destination.NewDestination(ReadKeysAndCert)" || p.name == "router_identity.NewRouterIdentityFromKeysAndCert(ReadKeysAndCert)" ||
+			// the container parsers are fed otherwise well-formed encodings (any options, the ones a real
+			// router publishes included): a permitted, supported identity inside must not make them fail
+			p.name == "router_info.ReadRouterInfo" || p.name == "lease_set2.ReadLeaseSet2" || p.name == "meta_leaseset.ReadMetaLeaseSet"
 		if direct && permitted && rm.SupportedSig(sig) && rm.SupportedCrypto(cr) {
 			c.Violate(p.name, "permitted-supported-pair-rejected", sh, enc, firstLineOf(err.Error()))
 		}
